@@ -17,8 +17,9 @@ import PcbV.Lemmas.ClearChain
     `current`, below the top; every variable pointer is a key with its length and lies in string space);
     `chain_clears_rest`: everything else is cleared as after CLEAR (files stay open, DEFtype kept only
     by MERGE, DEF FN only by ALL, OPTION BASE only when something is common).
-  * `chain_failure_releases_hold`: a failing CHAIN releases the collector hold and is never an
-    Out of string space (two of the repaired defects).
+  * `chain_missing_file_changes_nothing`: the file is opened first; a failing open leaves the state as it
+    was.  `chain_failure_releases_hold`: any later failure releases the collector hold; no failure is
+    an Out of string space (two of the repaired defects).
   * `…_counterexample`: models of the code before the repairs.
 -/
 namespace PcbV.C23
@@ -126,11 +127,16 @@ theorem chain_core (merge all : Bool) (cS cA : List Bytes) (file : Option (List 
       ((cS = [] ∧ cA = [] ∧ all = false) → s'.mem.base = none) ∧
       (s.mem.base.isSome → (cS ≠ [] ∨ cA ≠ [] ∨ all = true) → s'.mem.base = s.mem.base) := by
   unfold chainStmt chainWith at h
-  simp only [Bool.not_true, Bool.false_and, Bool.false_eq_true, if_false] at h
+  cases file with
+  | none => cases h
+  | some pf =>
+  obtain ⟨prog, size⟩ := pf
+  have hfile : some (prog, size) = some (prog, size) := rfl
+  simp only [chainOpened, Bool.not_true, Bool.false_and, Bool.false_eq_true, if_false] at h
   split at h
   · cases h
   · rename_i s3 hcl
-    obtain ⟨prog, size, hfile, hs3⟩ := chainLoad_ok _ _ _ _ _ hcl
+    have hs3 := chainLoad_ok _ _ _ _ _ hcl
     unfold chainFinish at h
     split at h
     · cases h
@@ -292,28 +298,44 @@ theorem chain_clears_rest (merge all : Bool) (cS cA : List Bytes) (file : Option
   rw [hit]
   exact ⟨rfl, rfl, rfl, rfl, rfl, rfl, rfl, rfl, rfl, rfl, rfl, rfl, hseed, hfi, hfn, hdt, hb0, hb1, hgc⟩
 
-/-- a CHAIN that fails (File not found, undefined start line, Out of memory) leaves garbage collection
-    enabled, and never fails with Out of string space: the strings to keep always fit -/
+/-- a CHAIN whose file cannot be opened changes nothing at all: the state is the one before, the error is
+    File not found (to be reported or trapped like any other error) -/
+theorem chain_missing_file_changes_nothing (merge all : Bool) (cS cA : List Bytes) (jump : Option Nat) (s : St) :
+    chainStmt merge all cS cA none jump s = .error (Gen.E.file_not_found, s) := rfl
+
+/-- a CHAIN that fails: either the file could not be opened and nothing has changed, or the failure came
+    later (undefined start line, Out of memory …) and garbage collection is enabled again; it is never
+    an Out of string space: the strings to keep always fit -/
 theorem chain_failure_releases_hold (merge all : Bool) (cS cA : List Bytes)
     (file : Option (List (Nat × Bytes) × Nat)) (jump : Option Nat) (s t : St) (e : Nat)
     (h : chainStmt merge all cS cA file jump s = .error (e, t)) :
-    t.mem.allowCollect = true ∧ e ≠ Gen.E.out_of_string_space := by
+    ((file = none ∧ e = Gen.E.file_not_found ∧ t = s) ∨
+     (file ≠ none ∧ e ≠ Gen.E.file_not_found ∧ t.mem.allowCollect = true)) ∧
+    e ≠ Gen.E.out_of_string_space := by
   unfold chainStmt chainWith at h
-  simp only [Bool.not_true, Bool.false_and, Bool.false_eq_true, if_false] at h
+  cases file with
+  | none =>
+    simp only [Except.error.injEq, Prod.mk.injEq] at h
+    obtain ⟨rfl, rfl⟩ := h
+    exact ⟨Or.inl ⟨rfl, rfl, rfl⟩, by decide⟩
+  | some pf =>
+  simp only [chainOpened, Bool.not_true, Bool.false_and, Bool.false_eq_true, if_false] at h
   split at h
   · rename_i x hcl
     cases h
     obtain ⟨he, hg⟩ := chainLoad_error _ _ _ _ _ _ hcl
-    refine ⟨by rw [hg]; rfl, ?_⟩
-    rcases he with rfl | rfl <;> decide
+    subst he
+    exact ⟨Or.inr ⟨by simp, by decide, by rw [hg]; rfl⟩, by decide⟩
   · rename_i s3 hcl
     unfold chainFinish at h
     split at h
     · rename_i e' hrc
       simp only [Except.error.injEq, Prod.mk.injEq] at h
       obtain ⟨rfl, rfl⟩ := h
-      refine ⟨rfl, ?_⟩
-      rcases restoreCommons_error _ _ _ _ _ hrc with rfl | rfl | rfl <;> decide
+      rcases restoreCommons_error _ _ _ _ _ hrc with rfl | rfl | rfl
+      · exact ⟨Or.inr ⟨by simp, by decide, rfl⟩, by decide⟩
+      · exact ⟨Or.inr ⟨by simp, by decide, rfl⟩, by decide⟩
+      · exact ⟨Or.inr ⟨by simp, by decide, rfl⟩, by decide⟩
     · cases h
 
 /-! ### non-vacuity and the code before the repairs -/
@@ -352,11 +374,12 @@ example : (match clearStmt (some 5900) none demo with
 theorem clear_gosub_mathtrap_counterexample :
     (clearInterpOld demo.it).gosub ≠ [] ∧ (clearInterpOld demo.it).mathRaise = true := by decide
 
-/-- before the repair a failed CHAIN (File not found) left garbage collection switched off for good -/
+/-- before the repair a CHAIN failing after the file was opened (here: undefined start line) left
+    garbage collection switched off for good -/
 theorem hold_garbage_counterexample :
-    (match chainWith false true false false [[65, 36]] [] none none demo with
+    (match chainWith false true false false [[65, 36]] [] (some ([(10, [])], 50)) (some 77) demo with
      | .error (e, t) => (e, t.mem.allowCollect)
-     | .ok _ => (0, true)) = (53, false) := by decide
+     | .ok _ => (0, true)) = (5, false) := by decide
 
 /-- before the repair CHAIN failed with Out of string space (and collection off) when a COMMON string was
     not shorter than the free memory of the OLD program, although the string fits easily afterwards
